@@ -15,6 +15,7 @@ static const double PRINT_TOL = 1.0e-9;   // operator<<(Deck) prints 10 signific
 static bool dclose(double a, double b) {
     if (a == b) return true;
     if (std::isnan(a) || std::isnan(b)) return std::isnan(a) && std::isnan(b);
+    if (!std::isfinite(a) || !std::isfinite(b)) return a == b;
     return std::fabs(a - b) <= PRINT_TOL * std::max(std::fabs(a), std::fabs(b));
 }
 
